@@ -111,6 +111,8 @@ def tty_reader_one(args):
                 break
             s.read_some(0.1)
         s.settle(4.0)
+        if not st or not s.at_prompt():
+            return {"unsettled": "the status probe after the job did not finish in time (status %s)" % st}
         io = [r.get("stdin") for r in recs if r.get("h") == "io"]
         sh = [c for c in _children(os.getpid()) if c["pid"] == s.pid]
         return {"delay": delay, "line": line, "stopped": stopped, "reader": reader, "status": st[0] if st else None, "stdin": io,
